@@ -108,6 +108,24 @@ chk("C04", "model_checking",
     "trace-validated by TLC", "DESIGN.md section 4, C04")
 
 
+chk("C12", "model_checking",
+    "spec/Format.tla is a reference renderer of the format mini-language (specifier parser, index / positional argument "
+    "selection, fill, width, alignment defaults, radix digits from the 64-bit value, escapes; UTF-8 length for the print "
+    "family). TLC (spec/GenFormat.tla) enumerates every specifier of the grammar (5 indexes x 21 alignments incl. the "
+    "fills 0 * blank x b : < # 7 x 5 widths x 5 radixes, with and without the colon) between literal text x 6 argument "
+    "lists and checks laws of the renderer on each (width respected, escapes, indexed specifiers do not consume); "
+    "seeded random strings of 1-6 pieces incl. 32 malformed shapes with 0-4 random arguments are added. Every case is "
+    "evaluated by the real interpreter and spec/FormatTrace.tla compares the returned string / runtime error with "
+    "Render. Scripts of 1-6 print / println / eprint / eprintln calls run through the real binary; TLC validates "
+    "stdout, stderr and the returned byte lengths.",
+    "Unspecified (accepted unless the run crashes): malformed specifiers, radix on negative or non-integer values, "
+    "padded non-ASCII text, the display text of characters and bytes; the display text of null, floats and arrays is "
+    "what str() of the same run shows. Widths up to 33; index / width numbers of more than 6 digits are unspecified.",
+    "TLA+ reference renderer; TLC-enumerated specifier grammar replayed into the interpreter; results and print-family "
+    "runs trace-validated by TLC",
+    "DESIGN.md section 4, C12")
+
+
 chk("C13", "model_checking",
     "15 kinds of failing construct x 7 contexts (top level, block, if body, loop body, function, two call levels "
     "deep, if condition) after random preceding code (blank lines, comments, lets, multi-line functions, filter "
